@@ -3,6 +3,7 @@ package gocv
 import (
 	"fmt"
 	"go/types"
+	"strings"
 )
 
 // verifyClosure checks a function literal as a function of its own: it may run
@@ -71,4 +72,81 @@ func (ex *Exec) verifyClosure(st *State, clo *Closure, ord int, ls *LoopSpec) {
 		}
 		ex.paths++
 	})
+}
+
+// linkClosureContracts: a function literal whose `closure N ensures` clauses are verified in this
+// function may be handed to a callee that models the corresponding parameter as a deterministic
+// function (`callback pure`). The verified clauses are then assumed for that function symbol:
+// forall params :: ensures[results := cb(closure, params)].
+func (ex *Exec) linkClosureContracts(st *State, fc *FuncContract, pc *preparedCall) {
+	if ex.fc == nil || len(fc.PureCallbacks) == 0 {
+		return
+	}
+	sig := pc.fn.Type().(*types.Signature)
+	for i := 0; i < sig.Params().Len() && i < len(pc.args); i++ {
+		pn := sig.Params().At(i).Name()
+		if i < len(fc.ParamNames) && fc.ParamNames[i] != "" {
+			pn = fc.ParamNames[i]
+		}
+		isCb := false
+		for _, n := range fc.PureCallbacks {
+			if n == pn {
+				isCb = true
+			}
+		}
+		a := pc.args[i]
+		if !isCb || a.Clo == nil || a.Clo.Lit == nil {
+			continue
+		}
+		ord, ok := ex.cloOrd[a.Clo.Lit]
+		if !ok {
+			continue
+		}
+		ls := ex.fc.Closures[ord]
+		if ls == nil || len(ls.Ensures) == 0 {
+			continue
+		}
+		csig, ok := under(ex.typeOf(a.Clo.Lit)).(*types.Signature)
+		if !ok {
+			continue
+		}
+		env := ex.envAt(st, a.Clo.Lit.Body.Lbrace)
+		var binders []string
+		var params []Val
+		for j := 0; j < csig.Params().Len(); j++ {
+			p := csig.Params().At(j)
+			s := ex.sortOf(p.Type())
+			name := fmt.Sprintf("q_c%d", j)
+			v := Val{T: name, S: s, GoT: p.Type()}
+			params = append(params, v)
+			binders = append(binders, "("+name+" "+s.Name+")")
+			if p.Name() != "" && p.Name() != "_" {
+				env.names[p.Name()] = v
+			}
+		}
+		results := ex.callbackApp(a, pn, csig, params)
+		for j, v := range results {
+			env.names[fmt.Sprintf("r%d", j)] = v
+			if j == len(results)-1 && isErrorType(csig.Results().At(j).Type()) {
+				env.names["err"] = v
+			}
+			if len(results) == 1 || (len(results) == 2 && j == 0) {
+				env.names["r"] = v
+			}
+		}
+		for _, en := range ls.Ensures {
+			if en.Canary {
+				continue
+			}
+			t, err := env.elabBool(en.Expr)
+			if err != nil {
+				ex.fail(pc.call.Pos(), "closure %d ensures %q (linking to %s): %v", ord, en.Src, fc.Key, err)
+				continue
+			}
+			if len(binders) > 0 {
+				t = "(forall (" + strings.Join(binders, " ") + ") " + t + ")"
+			}
+			st.assume(t)
+		}
+	}
 }
